@@ -69,8 +69,10 @@ def subsets_for(n, rnd, exhaustive_upto=8, drawn=40):
     yield tuple(range(n))
     for i in range(n):
         yield (i,)
-    for i in range(n):
-        for d in (30, 31, 32, 33, 34, 62, 63, 64, 65, 66, 126, 127, 128, 129, 130):
+    starts = range(n) if n <= 150 else sorted(set(range(8)) | {31, 32, 33, 59, 60, 61, 62, 63, 64, 65, 127, 128, 129, 191, 192,
+                                                       193, 255, 256, 257} | {rnd.randrange(n) for _ in range(12)})
+    for i in starts:
+        for d in (30, 31, 32, 33, 34, 60, 61, 62, 63, 64, 65, 66, 126, 127, 128, 129, 130, 255, 256, 257):
             if i + d < n:
                 yield (i, i + d)
     for _ in range(drawn):
@@ -100,6 +102,21 @@ def check_one(case, ctx, deep, small_subsets=8):
                     query(ctx, context, case, plain, side, subset, rnd.choice(['list', 'iter']), seq)
 
 
+def check_chars(case, ctx):
+    """Single-character labels: the collection may then be given as a str (an iterable of labels)."""
+    n, m = len(case['o']), len(case['p'])
+    if n > 26 or m > 26:
+        return
+    case = dict(case, o=list('abcdefghijklmnopqrstuvwxyz'[:n]), p=list('ABCDEFGHIJKLMNOPQRSTUVWXYZ'[:m]))
+    plain = lib.strip(case)
+    context = ctx.call('Context()', plain, lib.context_of, case)
+    rnd = gen._random.Random(repr((case['r'], n, m, ctx.seed, 'chars')))
+    for side, size in (('o', n), ('p', m)):
+        for subset in list(subsets_for(size, rnd, exhaustive_upto=3, drawn=6))[:14]:
+            if len(subset) >= 2:
+                query(ctx, context, case, plain, side, subset, 'str', subset)
+
+
 def plan(tier, seed):
     return tablecheck.plan(tier, seed, quick_cells=12, thorough_cells=16, thorough_shapes=(),
                            thorough_multisets=(), hyp_quick=(10, 60), hyp_thorough=(16, 600), wide=True,
@@ -107,7 +124,11 @@ def plan(tier, seed):
 
 
 def run(task, ctx):
-    tablecheck.run(task, ctx, check_one)
+    def both(case, ctx_, deep):
+        check_one(case, ctx_, deep)
+        if deep:
+            check_chars(case, ctx_)
+    tablecheck.run(task, ctx, both)
 
 
 def replay(case, ctx):
